@@ -1589,6 +1589,11 @@ impl<'a, SE: extensions::ShellExtensions> WordExpander<'a, SE> {
                     matches!(match_kind, brush_parser::word::SubstringMatchKind::Suffix),
                 )?;
 
+                // A null pattern matches nothing (rather than the empty string everywhere).
+                if expanded_pattern.is_empty() {
+                    return Ok(expanded_parameter);
+                }
+
                 transform_expansion(expanded_parameter, async |s| {
                     Ok(Self::replace_substring(
                         s.as_str(),
@@ -2017,17 +2022,45 @@ impl<'a, SE: extensions::ShellExtensions> WordExpander<'a, SE> {
         replacement: &str,
         match_kind: &SubstringMatchKind,
     ) -> String {
-        match match_kind {
-            brush_parser::word::SubstringMatchKind::Prefix
-            | brush_parser::word::SubstringMatchKind::Suffix
-            | brush_parser::word::SubstringMatchKind::FirstOccurrence => {
-                regex.replace(s, replacement).into_owned()
+        let replace_all = matches!(
+            match_kind,
+            brush_parser::word::SubstringMatchKind::Anywhere
+        );
+
+        // N.B. We don't use the regex crate's replace functions: the replacement text is
+        // literal (a `$1` in it is not a capture group reference), and an empty match at the
+        // very end of the value is not replaced (`${var//?(y)/x}` on `ab` yields `xaxb`).
+        let mut result = String::with_capacity(s.len());
+        let mut copied_up_to = 0;
+        for found in regex.find_iter(s) {
+            let Ok(found) = found else {
+                break;
+            };
+
+            if found.start() == found.end() && found.start() == s.len() {
+                continue;
             }
 
-            brush_parser::word::SubstringMatchKind::Anywhere => {
-                regex.replace_all(s, replacement).into_owned()
+            #[allow(
+                clippy::string_slice,
+                reason = "match offsets are on character boundaries"
+            )]
+            result.push_str(&s[copied_up_to..found.start()]);
+            result.push_str(replacement);
+            copied_up_to = found.end();
+
+            if !replace_all {
+                break;
             }
         }
+
+        #[allow(
+            clippy::string_slice,
+            reason = "match offsets are on character boundaries"
+        )]
+        result.push_str(&s[copied_up_to..]);
+
+        result
     }
 
     async fn apply_transform_to(
